@@ -1,5 +1,5 @@
 """Helpers over the compact statement trees written by the plugin."""
-SLOTS = ('init', 'var', 'cond', 'then', 'else', 'inc', 'body', 'sub', 'lhs', 'rhs', 'base', 'obj',
+SLOTS = ('init', 'var', 'cond', 'then', 'else', 'inc', 'call', 'body', 'sub', 'lhs', 'rhs', 'base', 'obj',
          'callee', 'val', 'range')
 LISTS = ('c', 'args', 'decls', 'handlers')
 
@@ -185,3 +185,123 @@ def text(e, depth=0):
         return '%s[%s]' % (text(c[0], d), text(c[1], d))
     if k == 'LambdaExpr': return '[lambda]'
     return k or '?'
+
+
+# ---- canonical rendering for sibling comparisons ------------------------------------------------------------------
+NEG = {'<': '>=', '>': '<=', '<=': '>', '>=': '<', '==': '!=', '!=': '=='}
+SWAP = {'<': '>', '>': '<', '<=': '>=', '>=': '<=', '==': '==', '!=': '!='}
+
+def mutated_ids(body):
+    """ids of locals/params that are assigned, incremented, compound-assigned or have their address taken anywhere in body."""
+    out = set()
+    for x in walk(body):
+        k = x.get('k')
+        t = None
+        if k in ('BinaryOperator', 'CompoundAssignOperator') and x.get('op', '').endswith('=') and x.get('op') not in ('==', '!=', '<=', '>='):
+            t = strip(x.get('lhs'), casts=True)
+        elif k == 'UnaryOperator' and x.get('op') in ('++', '--', '&'):
+            t = strip(x.get('sub'), casts=True)
+        elif k == 'CXXOperatorCallExpr' and x.get('oop') in ('=', '+=', '-=', '++', '--') and x.get('args'):
+            t = strip(x['args'][0], casts=True)
+        if t is not None and t.get('k') == 'DeclRefExpr': out.add(t.get('id'))
+    return out
+
+def pure_aliases(body):
+    """{id: init expr} for locals that are declared once with a side-effect-free initialiser over never-modified variables and are never
+    modified themselves: replacing a use by the initialiser does not change the meaning of the function."""
+    mut = mutated_ids(body)
+    out = {}
+    for x in walk_no_lambda(body):
+        if x.get('k') != 'VarDecl' or x.get('init') is None or x.get('id') in mut: continue
+        ok = True
+        def walk_unfolded(n):
+            # constant-folded sub-expressions ('ev') are pure whatever they contain
+            stack = [n]
+            while stack:
+                z = stack.pop()
+                if 'ev' in z: continue
+                yield z
+                stack.extend(reversed(children(z)))
+        for y in walk_unfolded(x['init']):
+            k = y.get('k')
+            if k in CALLS:
+                if callee_name(y) not in ('size', 'length') or y.get('args'): ok = False; break
+            elif k in ('CXXConstructExpr', 'CXXTemporaryObjectExpr', 'LambdaExpr', 'CXXNewExpr', 'InitListExpr'): ok = False; break
+            elif k == 'DeclRefExpr' and y.get('dk') in ('Var', 'ParmVar') and y.get('id') in mut: ok = False; break
+            elif k == 'UnaryOperator' and y.get('op') in ('++', '--', '*', '&'): ok = False; break
+        if ok: out[x['id']] = x['init']
+    return out
+
+def canon(e, aliases=None, neg=False, depth=0):
+    """Canonical text of an expression: pure local aliases replaced by their initialisers, parentheses and implicit casts dropped,
+    binary sub-expressions fully parenthesised, `>`/`>=` rewritten as `<`/`<=`, operands of ==/!= ordered, `!` pushed into comparisons.
+    Used only to compare two pieces of the code under analysis with each other (sibling agreement), never against a frozen text."""
+    aliases = aliases or {}
+    if e is None: return ''
+    if depth > 14: return '...'
+    d = depth + 1
+    k = e.get('k')
+    def wrapn(t): return ('!(%s)' % t) if neg else t
+    if k in TRANSPARENT or k in ('CXXDefaultArgExpr', 'ExprWithCleanups', 'MaterializeTemporaryExpr', 'CXXBindTemporaryExpr'):
+        return canon(e.get('sub'), aliases, neg, d)
+    if k == 'DeclRefExpr' and e.get('id') in aliases:
+        return canon(aliases[e['id']], aliases, neg, d)
+    if k == 'UnaryOperator' and e.get('op') == '!':
+        return canon(e.get('sub'), aliases, not neg, d)
+    if k == 'BinaryOperator' and e.get('op') in NEG:
+        op = e['op']
+        if neg: op = NEG[op]
+        a, b = canon(e.get('lhs'), aliases, False, d), canon(e.get('rhs'), aliases, False, d)
+        if op in ('>', '>='): op, a, b = SWAP[op], b, a
+        if op in ('==', '!=') and b < a: a, b = b, a
+        return '(%s %s %s)' % (a, op, b)
+    if k == 'CXXOperatorCallExpr' and e.get('oop') in NEG and len(e.get('args') or []) == 2:
+        op = e['oop']
+        if neg: op = NEG[op]
+        a, b = canon(e['args'][0], aliases, False, d), canon(e['args'][1], aliases, False, d)
+        if op in ('>', '>='): op, a, b = SWAP[op], b, a
+        if op in ('==', '!=') and b < a: a, b = b, a
+        return '(%s %s %s)' % (a, op, b)
+    if k == 'BinaryOperator' and e.get('op') in ('&&', '||') and neg:
+        op = '||' if e['op'] == '&&' else '&&'
+        return '(%s %s %s)' % (canon(e.get('lhs'), aliases, True, d), op, canon(e.get('rhs'), aliases, True, d))
+    if k in ('BinaryOperator', 'CompoundAssignOperator'):
+        return wrapn('(%s %s %s)' % (canon(e.get('lhs'), aliases, False, d), e.get('op'), canon(e.get('rhs'), aliases, False, d)))
+    if k == 'UnaryOperator':
+        if e.get('op') in ('++', '--'):
+            return wrapn('(%s %s= 1)' % (canon(e.get('sub'), aliases, False, d), e['op'][0]))
+        return wrapn(e.get('op', '') + canon(e.get('sub'), aliases, False, d))
+    if k in EXPLICIT_CASTS: return wrapn('cast(' + canon(e.get('sub'), aliases, False, d) + ')')
+    if k == 'ConditionalOperator':
+        c = e.get('cond')
+        return wrapn('(%s ? %s : %s)' % (canon(c, aliases, False, d), canon(e.get('then'), aliases, False, d), canon(e.get('else'), aliases, False, d)))
+    if k in ('MemberExpr', 'CXXDependentScopeMemberExpr', 'UnresolvedMemberExpr'):
+        b = e.get('base')
+        if b is None or strip(b).get('k') == 'CXXThisExpr': return wrapn(e.get('n', '?'))
+        return wrapn(canon(b, aliases, False, d) + '.' + e.get('n', '?'))
+    if k in CALLS:
+        args = e.get('args') or []
+        if k == 'CXXOperatorCallExpr':
+            op = e.get('oop', '')
+            if len(args) == 2 and op not in ('()', '[]'):
+                return wrapn('(%s %s %s)' % (canon(args[0], aliases, False, d), op, canon(args[1], aliases, False, d)))
+            if op == '[]' and len(args) == 2:
+                return wrapn('%s[%s]' % (canon(args[0], aliases, False, d), canon(args[1], aliases, False, d)))
+            if len(args) == 1: return wrapn(op + canon(args[0], aliases, False, d))
+        c = strip(e.get('callee'))
+        cn = canon(c, aliases, False, d) if c is not None else callee_name(e)
+        return wrapn('%s(%s)' % (cn, ', '.join(canon(a, aliases, False, d) for a in args)))
+    if k in ('CXXConstructExpr', 'CXXTemporaryObjectExpr'):
+        args = e.get('args') or []
+        if len(args) == 1: return wrapn(canon(args[0], aliases, False, d))
+        return wrapn('T(%s)' % ', '.join(canon(a, aliases, False, d) for a in args))
+    if k == 'ArraySubscriptExpr':
+        c = e.get('c') or [None, None]
+        return wrapn('%s[%s]' % (canon(c[0], aliases, False, d), canon(c[1], aliases, False, d)))
+    return wrapn(text(e, depth))
+
+def is_alias_decl(stmt, aliases):
+    """A DeclStmt that only declares pure aliases (it disappears in the canonical form)."""
+    if stmt.get('k') != 'DeclStmt': return False
+    ds = [d for d in stmt.get('decls') or [] if d.get('k') == 'VarDecl']
+    return bool(ds) and all(d.get('id') in aliases for d in ds)
